@@ -358,7 +358,84 @@ func emitRt(c *Ctx, tree interface{}) {
 	c.Emit("benc.rt ref="+hx(ref)+" got="+hx(got), obs)
 }
 
+// benc.deep: n containers opened one inside the other — never closed (kind=open), closed again (kind=list), or as a
+// chain of one-entry dictionaries (kind=dict). Far too long for the op line, so the input is rebuilt from (kind, n).
+// The decoder recurses once per level: it must answer (a value up to its nesting bound, an error beyond it), not
+// exhaust the stack — which would be the end of the process, reported by ./check as crash.detected with this case.
+func emitDeep(c *Ctx, kind string, n int) {
+	op := fmt.Sprintf("benc.deep kind=%s n=%d", kind, n)
+	c.Begin(op)
+	var in []byte
+	switch kind {
+	case "open":
+		in = bytes.Repeat([]byte{'l'}, n)
+	case "list":
+		in = append(bytes.Repeat([]byte{'l'}, n), bytes.Repeat([]byte{'e'}, n)...)
+	case "dict":
+		in = append(append(bytes.Repeat([]byte("d1:a"), n), []byte("i0e")...), bytes.Repeat([]byte{'e'}, n)...)
+	}
+	obs := func() (o string) {
+		defer func() {
+			if p := recover(); p != nil {
+				o = "PANIC " + strings.Fields(fmt.Sprint(p))[0]
+			}
+		}()
+		v, err := bencode.Unmarshal(in)
+		if err != nil {
+			return "err"
+		}
+		return fmt.Sprintf("ok depth=%d", treeDepthAny(v))
+	}()
+	c.Emit(op, obs)
+}
+
+// treeDepthAny: nesting depth of a decoded value, without recursion (the value may be 10000 levels deep)
+func treeDepthAny(v interface{}) int {
+	d := 0
+	for {
+		switch x := v.(type) {
+		case bencode.List:
+			d++
+			if len(x) == 0 {
+				return d
+			}
+			v = x[0]
+		case []interface{}:
+			d++
+			if len(x) == 0 {
+				return d
+			}
+			v = x[0]
+		case bencode.Dict:
+			d++
+			if len(x) == 0 {
+				return d
+			}
+			for _, e := range x {
+				v = e
+				break
+			}
+		case map[string]interface{}:
+			d++
+			if len(x) == 0 {
+				return d
+			}
+			for _, e := range x {
+				v = e
+				break
+			}
+		default:
+			return d
+		}
+	}
+}
+
 func replayC19(c *Ctx, op string, a map[string]string) {
+	if op == "benc.deep" {
+		n, _ := strconv.Atoi(a["n"])
+		emitDeep(c, a["kind"], n)
+		return
+	}
 	if op == "benc.stream" {
 		emitStream(c, unhx(a["in"]))
 		return
@@ -384,6 +461,12 @@ func runC19(c *Ctx) {
 	}
 	r := c.R
 	big := true
+	// nesting: around the decoder's bound, and far beyond any stack
+	for _, kind := range []string{"open", "list", "dict"} {
+		for _, n := range []int{1, 2, 100, 9999, 10000, 10001, 20000, 8 << 20} {
+			emitDeep(c, kind, n)
+		}
+	}
 	// boundary stream: string lengths around the bufio buffer, and every declared length vs. received
 	for _, n := range strLens {
 		emitRt(c, strings.Repeat("a", n))
